@@ -22,6 +22,7 @@ type SpecFile struct {
 	Path     string
 	Text     string
 	UsesType []string // "pkgrel.Type" to be declared before the text
+	TextNoAx string   // Text without top-level quantified assertions (for vacuity covers)
 	Mode     string   // "int", "bv", or "" (both)
 }
 
@@ -131,6 +132,16 @@ func loadSpecFile(path string) (*SpecFile, []*SpecFn, error) {
 		return nil, nil, fmt.Errorf("%s: %v", path, err)
 	}
 	var fns []*SpecFn
+	{
+		var sb strings.Builder
+		for _, x := range xs {
+			if x.isL && len(x.list) == 2 && x.list[0].atom == "assert" && x.list[1].isL && len(x.list[1].list) > 0 && x.list[1].list[0].atom == "forall" {
+				continue
+			}
+			sb.WriteString(x.String() + "\n")
+		}
+		sf.TextNoAx = sb.String()
+	}
 	for _, x := range xs {
 		if x.isL && len(x.list) == 3 && x.list[0].atom == "declare-const" {
 			fns = append(fns, &SpecFn{Name: x.list[1].atom, Ret: x.list[2].String()})
